@@ -103,6 +103,12 @@ def instances(tier, seed):
                                    "fk": list(fk), "mode": "sampling", "n": n}
             for jk in ("sum+1", "prod", "table"):
                 yield {"loader": "function", "t": t, "bounds": [list(b) for b in bounds], "jk": jk}
+    # degenerate and large boxes
+    for bounds in ([(3, 3)], [(0, 0), (0, 1)], [(2, 2), (1, 1)]):
+        yield {"loader": "function", "t": len(bounds), "bounds": [list(b) for b in bounds], "jk": "sum+1"}
+    yield {"loader": "marginal", "t": 1, "bounds": [[299, 301]], "fk": ["const"], "mode": "sampling", "n": 2}
+    yield {"loader": "marginal", "t": 2, "bounds": [[255, 257], [0, 1]], "fk": ["const", "k+1"], "mode": "sampling",
+           "n": 1}
 
 
 def build(loader, params, how):
